@@ -161,6 +161,10 @@ struct Collected {
 
 fn collect(src: &str, full: bool) -> Collected {
     let mut c = Collected { recs: Vec::new(), fmt_out: None, panics: Vec::new(), ntok: 0, nlexerr: 0 };
+    if std::env::var("C19_ONLY").as_deref() == Ok("format") {
+        collect_format(src, &mut c);
+        return c;
+    }
     // lexer
     match catch(|| uiua::lex(src, (), &mut Inputs::default())) {
         Ok((toks, errs, _)) => {
@@ -234,7 +238,12 @@ fn collect(src: &str, full: bool) -> Collected {
         }
         Err(p) => c.panics.push(("lsp".into(), p)),
     }
-    // formatter glyph map
+    collect_format(src, &mut c);
+    c
+}
+
+/// formatter glyph map (source side into recs, output side into fmt_out)
+fn collect_format(src: &str, c: &mut Collected) {
     match catch(|| format_str(src, &FormatConfig::default())) {
         Ok(Ok(out)) => {
             let mut outs = Vec::new();
@@ -249,7 +258,6 @@ fn collect(src: &str, full: bool) -> Collected {
         Ok(Err(e)) => err_spans(&e, "fmterr", &mut c.recs),
         Err(p) => c.panics.push(("format".into(), p)),
     }
-    c
 }
 
 // ---------------------------------------------------------------- the functional monitor
@@ -588,19 +596,28 @@ impl Gen {
     }
 }
 
-/// deliberately huge inputs (search only): u16 limits of line/col and the guard of `lex`
+/// fixed regression corpus of deliberately huge inputs (runs first in `search`).
+/// Since the repair of the guard of `lex` (lex.rs:50-88: at most 65534 lines of at most 65534
+/// chars) the inputs of the first group must be rejected with the ordinary too-long errors
+/// (no panic, no saturated Loc); the second group lies just inside the guard and must lex cleanly.
+/// (name of the defect class the input once exposed, description used in keys, text)
 fn big_inputs() -> Vec<(&'static str, &'static str, String)> {
-    // (root cause expected, description used as the input part of the key, text)
     vec![
-        ("", "one line of 65534 spaces then \"1\" (65535 chars: accepted by the guard; end column 65536 saturates)", format!("{}1", " ".repeat(65534))),
-        ("", "65535 line breaks then \"1\" (65536 lines: accepted by the guard; last line number saturates)", format!("{}1", "\n".repeat(65535))),
-        ("", "65533 spaces, a lone CR, \"a\" (CR is not a column)", format!("{}\ra", " ".repeat(65533))),
+        ("loc-u16-saturation", "65534 spaces then \"1\" (one line of 65535 chars)", format!("{}1", " ".repeat(65534))),
+        ("loc-u16-saturation", "65535 line breaks then \"1\" (65536 lines)", format!("{}1", "\n".repeat(65535))),
+        ("loc-u16-saturation", "65533 spaces, a lone CR, \"a\" (65535 chars)", format!("{}\ra", " ".repeat(65533))),
         ("guard-error-span", "one line of 65535 'a' then \" 1\" (LineTooLong on line 1)", format!("{} 1", "a".repeat(65535))),
         ("guard-error-span", "\"a\\n\" then one line of 65536 'x' (LineTooLong on line 2)", format!("a\n{}", "x".repeat(65536))),
         ("guard-error-span", "65536 lines \"1\\n\" then \"2\" (FileTooLong)", format!("{}2", "1\n".repeat(65536))),
         ("guard-empty-line-panic", "65537 empty lines (FileTooLong on an empty line)", "\n".repeat(65537)),
-        ("split-ident-col-overflow", "65532 spaces then \"rev\" (split identifier ending at column 65536)", format!("{}rev", " ".repeat(65532))),
-        ("line-saturation-assert", "65534 line breaks then \"a\\n\" (Newline token from 65535:2 to 65536:1)", format!("{}a\n", "\n".repeat(65534))),
+        ("split-ident-col-overflow", "65532 spaces then \"rev\" (65535 chars)", format!("{}rev", " ".repeat(65532))),
+        ("line-saturation-assert", "65534 line breaks then \"a\\n\" (65535 lines)", format!("{}a\n", "\n".repeat(65534))),
+        // just inside the guard: accepted, every position representable
+        ("inside-guard", "65533 spaces then \"1\" (one line of 65534 chars, end column 65535)", format!("{}1", " ".repeat(65533))),
+        ("inside-guard", "65533 line breaks then \"1\" (65534 lines)", format!("{}1", "\n".repeat(65533))),
+        ("inside-guard", "65531 spaces then \"rev\" (split identifier ending at column 65535)", format!("{}rev", " ".repeat(65531))),
+        ("inside-guard", "65532 line breaks then \"a\\n\" (Newline token from 65533:2 to 65534:1)", format!("{}a\n", "\n".repeat(65532))),
+        ("inside-guard", "65532 line breaks then 65533 spaces and \"1\" (last line and last column)", format!("{}{}1", "\n".repeat(65532), " ".repeat(65533))),
     ]
 }
 
@@ -834,10 +851,14 @@ fn main() {
                         continue;
                     }
                     seen_small.push((v.key.clone(), shown.clone()));
-                    let cz = match label {
-                        Some((c, _)) if v.key != "loc-u16-saturation" => c,
-                        _ => cause(&v.key, &detail, &small),
+                    let cz: String = match label {
+                        // regression corpus: only the (unrepaired) span of the too-long error is a known class
+                        Some((c, _)) if v.key != "loc-u16-saturation" => {
+                            if detail.contains("too long]") && !v.key.starts_with("panic/") { "guard-error-span".to_string() } else { format!("regression-{c}") }
+                        }
+                        _ => cause(&v.key, &detail, &small).to_string(),
                     };
+                    let cz = cz.as_str();
                     println!(
                         "{{\"violation\":{},\"cause\":{},\"span_kind\":{},\"input\":{},\"input_len\":{},\"detail\":{},\"cat\":{}}}",
                         jstr(&v.key),
@@ -852,6 +873,40 @@ fn main() {
             };
             for (cz, label, src) in big_inputs() {
                 run(&src, "big", false, Some((cz, label)), false);
+                let accepted = catch(|| uiua::lex(&src, (), &mut Inputs::default()).0.len()).map(|n| n > 0).unwrap_or(false);
+                if accepted != (cz == "inside-guard") {
+                    println!(
+                        "{{\"violation\":\"guard/acceptance\",\"cause\":\"regression-{cz}\",\"span_kind\":\"guard\",\"input\":{},\"input_len\":{},\"detail\":{},\"cat\":\"big\"}}",
+                        jstr(label),
+                        src.len(),
+                        jstr(if accepted { "the guard of lex accepted an input whose positions do not fit the 16-bit line/column" } else { "the guard of lex rejected an input whose positions all fit" })
+                    );
+                }
+            }
+            // formatter only: the OUTPUT-side positions of the glyph map are 16-bit too (format.rs end_loc, `as u16`)
+            {
+                let label = "\"F=\" then 65532 '+' (accepted: 65534 chars; the formatted line \"F \u{2190} +++...\" has 65536 chars)";
+                let src = format!("F={}", "+".repeat(65532));
+                begin(&src);
+                let mut c = Collected { recs: Vec::new(), fmt_out: None, panics: Vec::new(), ntok: 0, nlexerr: 0 };
+                collect_format(&src, &mut c);
+                let mut seen: Vec<String> = Vec::new();
+                for v in monitor(&src, &c) {
+                    if !(v.key.starts_with("gmap") || v.key.starts_with("panic/")) || seen.contains(&v.key) {
+                        continue;
+                    }
+                    seen.push(v.key.clone());
+                    let cz = if v.key == "gmap-out/line-col" { "fmt-out-col-u16" } else { "regression-fmt-out-col-u16" };
+                    println!(
+                        "{{\"violation\":{},\"cause\":{},\"span_kind\":{},\"input\":{},\"input_len\":{},\"detail\":{},\"cat\":\"big\"}}",
+                        jstr(&v.key),
+                        jstr(cz),
+                        jstr(v.kind),
+                        jstr(label),
+                        src.len(),
+                        jstr(&v.detail)
+                    );
+                }
             }
             for k in 0..n {
                 let (src, cat) = g.input(&mut r, false);
